@@ -134,6 +134,54 @@ def run_r2c(case, stt):
     stt.label("kind_" + case["kind"])
 
 
+# -- long / wide arrays (numpy.fft reference) -----------------------------------------------------------------------
+
+
+@st.composite
+def wide_case(draw):
+    N = draw(st.sampled_from([4096, 8000, 16384, 20000, 32768, 40001, 65538, 131074]))
+    ncol = draw(st.sampled_from([1, 2, 3, 5, 8, 16]))
+    if N * ncol > 400000:
+        ncol = max(1, 400000 // N)
+    axis = draw(st.sampled_from([0, 1, -1, -2]))
+    return {"N": N, "ncol": ncol, "axis": axis, "dtype": draw(st.sampled_from(["f4", "f8", "i2"])), "seed": draw(st.integers(0, 1000))}
+
+
+def run_wide(case, stt):
+    import pulsarbat as pb
+
+    N, ncol = case["N"], case["ncol"]
+    rng = np.random.default_rng(case["seed"])
+    x = rng.standard_normal((N, ncol)) * 10
+    dt = G.DT[case["dtype"]]
+    x = np.rint(x).astype(dt) if np.issubdtype(dt, np.integer) else x.astype(dt)
+    ax = case["axis"] % 2
+    xin = x if ax == 0 else np.ascontiguousarray(x.T)
+    with lib("real_to_complex"):
+        y = pb.utils.real_to_complex(xin, axis=case["axis"])
+    y = y if ax == 0 else y.T
+    check(y.shape == ((N + 1) // 2, ncol), "shape {} for input ({}, {}) along axis {}", y.shape, N, ncol, case["axis"])
+    check(y.dtype == (np.complex64 if dt == np.float32 else np.complex128), "dtype {}", y.dtype)
+    a = np.fft.fft(x.astype(np.float64), axis=0)
+    h = np.zeros(N)
+    h[0] = 1
+    h[1 : (N + 1) // 2] = 2
+    if N % 2 == 0:
+        h[N // 2] = 1
+    ref = (np.fft.ifft(a * h[:, None], axis=0) * np.exp(-0.5j * np.pi * (np.arange(N) % 4))[:, None])[::2]
+    eps = 6e-8 if dt == np.float32 else 1.2e-16
+    # FFT rounding at the data's precision + the float64 mixing phasor exp(-i pi n / 2), whose argument carries a relative error of eps64
+    # (absolute error growing linearly with n)
+    tol = 64 * eps * (1 + math.log2(N)) * float(np.max(np.abs(x))) + 8 * 1.2e-16 * (math.pi / 2) * N * float(np.max(np.abs(ref)))
+    err = np.max(np.abs(y - ref), axis=0)
+    bad = [int(j) for j in np.nonzero(err > tol)[0]]
+    check(not bad, "columns {} differ from the analytic-baseband conversion (max error {:.3g}, tol {:.3g}; N={}, {} columns, axis={})", bad, float(err.max()), tol,
+          N, ncol, case["axis"])
+    stt.nt(ncol > 1)
+    stt.label("N_%d" % N)
+    stt.label("dtype_" + case["dtype"])
+
+
 # -- reader path: real-sampled VDIF written by the check ----------------------------------------------------------
 
 
@@ -229,6 +277,9 @@ SUBS = [
         "N 0..130 of every residue mod 4, rank 1..3, every axis incl. negative, dtypes f2/f4/f8/i2/i8/u1/bool, noise/tone/impulse/constant "
         "data; definition, shape, dtype, real-part identity, linearity, tone mapping, complex refusal; non-trivial = N >= 3 and (axis != 0 or "
         "odd N or non-tone data)", quick=2500, thorough=50000, pieces_quick=4),
+    Sub("long_wide_arrays", wide_case(), run_wide,
+        "N in {4096..131074} x 1..16 columns along either axis (numpy.fft float64 reference), f4/f8/i2; every column checked; non-trivial = "
+        "more than one column", quick=150, thorough=1500, pieces_quick=4),
     Sub("reader_real_vdif", reader_case(), run_reader,
         "real-sampled 8-bit VDIF files written by the check (8..12 frames), read(offset, n) incl. odd n and frame-crossing reads, compared with "
         "the reference conversion of file samples [2o, 2o+2n); non-trivial = n >= 3", quick=400, thorough=5000, pieces_quick=4),
